@@ -36,7 +36,8 @@ Fixpoint distinct_rules (l : list rule_id) : list rule_id :=
   end.
 
 (* the rules that have a `notices` rule at all *)
-Definition gated_ids : list rule_id := distinct_rules (map (fun g => (g_cat g, g_title g)) gated_rules).
+Definition gated_ids : list rule_id :=
+  Eval vm_compute in distinct_rules (map (fun g => (g_cat g, g_title g)) gated_rules).
 
 (* ---------------------------------------------------------------------------------------------- *)
 (* function level: one target, one file                                                           *)
@@ -81,6 +82,7 @@ Record lfile := mkLF { lf_info : file_info; lf_kind : nat }.   (* kind: column o
 
 Record lcase := mkL {
   lc_caps : caps;
+  lc_disabled : list rule_id;                  (* gated rules the configuration switches off (level: ignore)   *)
   lc_files : list lfile;
   lc_oracle : list (rule_id * list nat);       (* count(data.regal.rules[c][t].report) per file kind, no gate *)
   lc_viol : list (nat * rule_id * nat);        (* (file index, rule, number of violations) reported by Lint  *)
@@ -93,16 +95,21 @@ Fixpoint oracle_count (o : list (rule_id * list nat)) (r : rule_id) (kind : nat)
   | (r', counts) :: o' => if rule_eqb r r' then nth kind counts O else oracle_count o' r kind
   end.
 
+(* _rules_to_run restricted to the gated rules *)
+Definition l_to_run (l : lcase) : list rule_id := filter (fun r => negb (rule_in r (lc_disabled l))) gated_ids.
+
 Definition l_notices_of (l : lcase) (r : rule_id) (f : lfile) : list notice :=
   table_notices gated_rules (lc_caps l) r (lf_info f).
 
 Definition l_report_of (l : lcase) (r : rule_id) (f : lfile) : list nat :=
   seq 0 (oracle_count (lc_oracle l) r (lf_kind f)).
 
-(* number of violations of rule r the model's main.rego lets through for file f *)
-Definition model_viol_count (l : lcase) (r : rule_id) (f : lfile) : nat :=
-  length (filter (fun rv => rule_eqb (fst rv) r)
-                 (file_violations lfile nat (l_notices_of l) (l_report_of l) (fun _ _ => []) gated_ids [] f)).
+(* what the model's main.rego lets through for file f, computed once per file *)
+Definition model_file_violations (l : lcase) (f : lfile) : list (rule_id * nat) :=
+  file_violations lfile nat (l_notices_of l) (l_report_of l) (fun _ _ => []) (l_to_run l) [] f.
+
+Definition count_rule (r : rule_id) (fv : list (rule_id * nat)) : nat :=
+  length (filter (fun rv => rule_eqb (fst rv) r) fv).
 
 Fixpoint observed_count (v : list (nat * rule_id * nat)) (i : nat) (r : rule_id) : nat :=
   match v with
@@ -114,16 +121,16 @@ Fixpoint indexed {A} (i : nat) (l : list A) : list (nat * A) :=
   match l with [] => [] | x :: l' => (i, x) :: indexed (S i) l' end.
 
 Definition viol_agrees (l : lcase) : bool :=
-  forallb (fun ifl => forallb (fun r => Nat.eqb (observed_count (lc_viol l) (fst ifl) r)
-                                                (model_viol_count l r (snd ifl))) gated_ids)
+  forallb (fun ifl => let fv := model_file_violations l (snd ifl) in
+                      forallb (fun r => Nat.eqb (observed_count (lc_viol l) (fst ifl) r) (count_rule r fv)) gated_ids)
           (indexed 0 (lc_files l)).
 
 Definition notices_agree (l : lcase) : bool :=
   nodup_notices (lc_notices l)
-  && notices_same_set (lc_notices l) (lint_notices lfile (l_notices_of l) gated_ids (lc_files l)).
+  && notices_same_set (lc_notices l) (lint_notices lfile (l_notices_of l) (l_to_run l) (lc_files l)).
 
 Definition skipped_agrees (l : lcase) : bool :=
-  Nat.eqb (lc_skipped l) (rules_skipped lfile (l_notices_of l) gated_ids (lc_files l)).
+  Nat.eqb (lc_skipped l) (rules_skipped lfile (l_notices_of l) (l_to_run l) (lc_files l)).
 
 Definition lcase_agrees (l : lcase) : bool := viol_agrees l && notices_agree l && skipped_agrees l.
 
@@ -137,15 +144,20 @@ Definition needs_respected (l : lcase) : bool :=
   forallb (fun ifl =>
     let f := snd ifl in
     forallb (fun nd =>
-               negb (need_unmet (nd_need nd) (lc_caps l) (lf_info f))
+               rule_in (nd_cat nd, nd_title nd) (lc_disabled l)
+               || negb (need_unmet (nd_need nd) (lc_caps l) (lf_info f))
                || (Nat.eqb (observed_count (lc_viol l) (fst ifl) (nd_cat nd, nd_title nd)) 0
                    && has_triple (nd_cat nd) (nd_title nd) (nd_severity nd) (lc_notices l))) needs_table
     && forallb (fun r =>
-                  existsb (fun nd => rule_eqb (nd_cat nd, nd_title nd) r
-                                     && need_unmet (nd_need nd) (lc_caps l) (lf_info f)) needs_table
-                  || Nat.eqb (observed_count (lc_viol l) (fst ifl) r) (oracle_count (lc_oracle l) r (lf_kind f)))
+                  if rule_in r (lc_disabled l)
+                  then Nat.eqb (observed_count (lc_viol l) (fst ifl) r) 0
+                  else existsb (fun nd => rule_eqb (nd_cat nd, nd_title nd) r
+                                          && need_unmet (nd_need nd) (lc_caps l) (lf_info f)) needs_table
+                       || Nat.eqb (observed_count (lc_viol l) (fst ifl) r) (oracle_count (lc_oracle l) r (lf_kind f)))
                gated_ids)
-  (indexed 0 (lc_files l)).
+  (indexed 0 (lc_files l))
+  (* a rule that is switched off is not listed as skipped *)
+  && forallb (fun n => negb (rule_in (n_category n, n_title n) (lc_disabled l))) (lc_notices l).
 
 (* ---------------------------------------------------------------------------------------------- *)
 (* plus / minus: the interesting builtin names present after loading vs the model's edit           *)
